@@ -27,6 +27,7 @@ package checks
 import (
 	"encoding/json"
 	"fmt"
+	"github.com/DrmagicE/gmqtt/config"
 	"os"
 	"path/filepath"
 	"sort"
@@ -62,6 +63,25 @@ type c18Scen struct {
 	Items []c18Item `json:"items"` // after CONNECT and SUBSCRIBE
 	Cuts  []int     `json:"cuts"`  // offsets into the byte stream where a new websocket message starts (a repeated offset = an empty message)
 	Text  int       `json:"text"`  // 0: none; k>0: message number (k-1) mod #messages is sent as a TEXT message
+	// TightMax: the broker's mqtt.max_packet_size is the size of the largest packet of the stream plus TightMax-1
+	// (0 = the default limit): every packet is legal, but a websocket message packing several packets is longer
+	// than the limit - which must not matter, the limit is about MQTT packets
+	TightMax int `json:"tight_max_packet_size,omitempty"`
+}
+
+// c18Config is the broker configuration of a case (the same for the reference run and the websocket run).
+func c18Config(s c18Scen, l *c18Layout) config.Config {
+	cfg := fixture.BaseConfig()
+	if s.TightMax > 0 {
+		largest := 0
+		for _, p := range l.Pkts {
+			if n := p.End - p.Start; n > largest {
+				largest = n
+			}
+		}
+		cfg.MQTT.MaxPacketSize = uint32(largest + s.TightMax - 1)
+	}
+	return cfg
 }
 
 type c18Pkt struct {
@@ -182,6 +202,9 @@ func c18Messages(stream []byte, cuts []int) [][2]int {
 
 func genC18(t *rapid.T) c18Scen {
 	s := c18Scen{V: rapid.SampledFrom([]int{4, 5}).Draw(t, "v"), Seed: rapid.Uint64().Draw(t, "seed")}
+	if rapid.IntRange(0, 3).Draw(t, "tight") == 0 {
+		s.TightMax = rapid.IntRange(1, 3).Draw(t, "tightmax")
+	}
 	npub := rapid.IntRange(1, 6).Draw(t, "npub")
 	near := func(ts []int) int {
 		total := rapid.SampledFrom(ts).Draw(t, "total")
@@ -324,7 +347,7 @@ func c18NotPub(p *mw.Packet) bool { return p.Type != mw.PUBLISH }
 // c18Reference sends the stream in one piece over the in-memory transport to a fresh broker
 // and returns the responses, after checking them against what MQTT demands.
 func c18Reference(s c18Scen, l *c18Layout, wire []byte) (*c18Resp, *ev.Violation) {
-	b, err := fixture.Start(fixture.Opts{Config: fixture.BaseConfig()})
+	b, err := fixture.Start(fixture.Opts{Config: c18Config(s, l)})
 	if err != nil {
 		return nil, harnessErr("start reference broker: %v", err)
 	}
@@ -527,9 +550,12 @@ func runC18(s c18Scen, c *ev.Case) *ev.Violation {
 	}
 
 	// ---- websocket run
-	b, url, err := fixture.StartWS(fixture.Opts{Config: fixture.BaseConfig()})
+	b, url, err := fixture.StartWS(fixture.Opts{Config: c18Config(s, l)})
 	if err != nil {
 		return harnessErr("start websocket broker: %v", err)
+	}
+	if s.TightMax > 0 {
+		c.Label("tight_max_packet_size")
 	}
 	defer b.Stop()
 
